@@ -103,10 +103,9 @@ class PersistentReserveInReadKeys(PersistentReserveIn):
         additional_length = scsi_ba_to_int(data[4:8])
         data = data[8 : additional_length + 8]
         keys = []
-        while len(data):
-            key = scsi_ba_to_int(data[:8])
-            data = data[8:]
-            keys.append(key)
+        # by position, see ReportLuns.unmarshall_datain
+        for _pos in range(0, len(data), 8):
+            keys.append(scsi_ba_to_int(data[_pos : _pos + 8]))
         result["reservation_keys"] = keys
         return result
 
@@ -325,15 +324,21 @@ class PersistentReserveInReadFullStatus(PersistentReserveIn):
         if additional_length == 0:
             return result
         data = data[8 : additional_length + 8]
-        while len(data):
+        # by position, see ReportLuns.unmarshall_datain
+        _pos = 0
+        while _pos < len(data):
             _status_desc = {}
-            decode_bits(data, cls._full_status_desc_bits, _status_desc)
-            data = data[24:]
+            decode_bits(
+                data[_pos : _pos + 24], cls._full_status_desc_bits, _status_desc
+            )
+            _pos += 24
             additional_desc_length = _status_desc["additional_desc_length"]
             del _status_desc["additional_desc_length"]
             if additional_desc_length > 0:
-                _status_desc["transport_id"] = cls.unmarshall_transport_id(data)
-                data = data[additional_desc_length:]
+                _status_desc["transport_id"] = cls.unmarshall_transport_id(
+                    data[_pos : _pos + additional_desc_length]
+                )
+                _pos += additional_desc_length
                 result["full_status"].append(_status_desc)
 
         return result
